@@ -135,10 +135,16 @@ func (d *DFPNSolver) Prove(g *tak.Position) (ProofResult, DFPNStats) {
 	})
 	d.stats.Work = work
 	duration := time.Since(start)
+	// phi and delta are relative to the side to move at the root; the
+	// reported result is relative to the attacker.
 	var result Evaluation = EvalUnknown
-	if entry.bounds.phi == 0 {
+	moverWins, moverLoses := entry.bounds.phi == 0, entry.bounds.delta == 0
+	if d.attacker != g.ToMove() {
+		moverWins, moverLoses = moverLoses, moverWins
+	}
+	if moverWins {
 		result = EvalTrue
-	} else if entry.bounds.delta == 0 {
+	} else if moverLoses {
 		result = EvalFalse
 	}
 	return ProofResult{
